@@ -275,6 +275,26 @@ def P14(m, R):
             except Undecided as e:
                 R.undecided(f, f.node, 'offset loop not interpreted: %s' % e, construct=cons)
                 continue
+            if res.get('table_scans') and not sep_given:
+                st_, tab, _k = res['table_scans'][0]
+                if tab != 'isspace':
+                    try:
+                        from ..consteval import get_folder, Unfoldable
+                        tv_ = get_folder(m).fold(tab)
+                    except Exception:
+                        tv_ = None
+                    if isinstance(tv_, str):
+                        pyws = [chr(c_) for c_ in range(0x3001) if chr(c_).isspace()]       # what str.split() / str.strip() treat as whitespace
+                        missing = [c_ for c_ in pyws if c_ not in tv_]
+                        if missing:
+                            R.viol(f, st_, 'the gap before a piece is skipped by scanning for the %d characters of %s; str.%s() also separates on %d other characters '
+                                           '(%s ...): after such a character every piece is cut from the wrong offset' % (
+                                               len(tv_), short(tab), 'split' if name == '_split' else 'splitlines', len(missing),
+                                               ', '.join(repr(x) for x in missing[:4])), construct=cons)
+                            continue
+                    else:
+                        R.undecided(f, st_, 'table %s of the gap scan not folded' % short(tab), construct=cons)
+                        continue
             (a1, b1), (a2, b2) = res['slices']
             L1, L2, SEP = Sym({'L1': 1}), Sym({'L2': 1}), Sym({'SEP': 1})
             G1, G2 = Sym({'G1': 1}), Sym({'G2': 1})
